@@ -53,8 +53,9 @@ class ForLoop:
         self.generator = generator
         i = tree.indices[0]
         e = i.expression
-        start = e.start.value
-        step = e.step.value
+        # Negative literals (e.g. the step of 3:-1:1) are unary minus expressions
+        start = self.generator.get_integer(e.start)
+        step = self.generator.get_integer(e.step)
         stop = self.generator.get_integer(e.stop)
         # The stop value is inclusive, but must not be overshot when the
         # range length is not a multiple of the step.
@@ -669,6 +670,10 @@ class Generator(TreeListener):
 
             # Obtain expression
             expr = self.get_mx(tree)
+
+            if not isinstance(expr, ca.MX):
+                # Constant expression, e.g. the unary minus of a literal
+                return int(expr)
 
             # Obtain the symbols it depends on
             free_vars = ca.symvar(expr)
